@@ -100,16 +100,13 @@ def switchThresholds : List Rat :=
 
 def onThreshold (x : Rat) : Bool := switchThresholds.contains x
 
-/-- Writing the table that was read back (`b`) again: line `l2` must denote the same values as the first export `l1`,
-    and be the identical text except in a coordinate field whose value sits exactly on a format-switch threshold
-    (negative zero cannot be told apart here and is tolerated the same way: equal value, text may differ). -/
+/-- Writing the table that was read back (`b`) again gives line `l2`: each coordinate field must again denote the value
+    in `b` to within half a unit of the precision it is printed with, and `l2` must be the identical text as the first
+    export `l1` except in a coordinate field whose value sits exactly on a format-switch threshold (or is zero: a
+    negative zero cannot be told apart in this model and is tolerated the same way). -/
 def reexportOK (b : Atom) (l1 l2 : Str) : Bool :=
-  let sameVal (a c : Nat) : Bool :=
-    match parseFloat (cols l1 a c), parseFloat (cols l2 a c) with
-    | .ok u, .ok v => u == v
-    | _, _ => false
   let coord (x : Rat) (a c : Nat) : Bool :=
-    sameVal a c && (rawCols l1 a c == rawCols l2 a c || onThreshold x || x == 0)
+    coordOK x (rawCols l2 a c) && (rawCols l1 a c == rawCols l2 a c || onThreshold x || x == 0)
   rawCols l1 1 30 == rawCols l2 1 30 && rawCols l1 55 80 == rawCols l2 55 80 &&
   coord b.x 31 38 && coord b.y 39 46 && coord b.z 47 54
 
@@ -123,7 +120,9 @@ def Fits (a : Atom) : Prop :=
   a.iCode.length ≤ 1 ∧ strip a.iCode = a.iCode ∧
   1 ≤ a.element.length ∧ a.element.length ≤ 2 ∧ strip a.element = a.element ∧
   -(9999 : Rat) / 100 ≤ a.occ ∧ a.occ ≤ (99999 : Rat) / 100 ∧
-  -(9999 : Rat) / 100 ≤ a.temp ∧ a.temp ≤ (99999 : Rat) / 100
+  -(9999 : Rat) / 100 ≤ a.temp ∧ a.temp ≤ (99999 : Rat) / 100 ∧
+  -- text attributes are single-line
+  '\n' ∉ a.name ∧ '\n' ∉ a.altLoc ∧ '\n' ∉ a.resName ∧ '\n' ∉ a.chainID ∧ '\n' ∉ a.iCode ∧ '\n' ∉ a.element
 
 /-- the coordinate range in which a coordinate can be written at all -/
 def CoordInRange (x : Rat) : Prop := -(19999999 : Rat) / 2 < x ∧ x < (199999999 : Rat) / 2
